@@ -23,6 +23,9 @@ func init() {
 func c16() []*Ob {
 	searchStores := Callee("(*proxy/search.Ingestor).searchStores")
 	return []*Ob{
+		{Prop: "C16", ID: "C16.12", Engine: "MUST-SEND", Floor: 1,
+			Desc:  "no shard disappears: a shard goroutine of searchStores that has called searchShard reaches its return only through a send on the response channel, whatever the context says — a goroutine that keeps its answer to itself because 'the request is over anyway' leaves neither a QPR nor an error, and when the deadline falls in the middle of the fan-out the shards collected so far are returned as a complete answer (no error, no partial-response flag) for requests without a fetch phase",
+			Check: func(c *Ctx) { everyShardAnswers(c) }},
 		{Prop: "C16", ID: "C16.11", Engine: "PAIR(two sites)", Floor: 1,
 			Desc:  "the long-term tier is asked when the hot tier has dropped the range: a mature hot store refuses such a range with a response code (nil RPC error), or — if it refuses with an RPC error — searchShard recognises the refusal by its text and fails fast with ErrIngestorQueryWantsOldData",
 			Check: func(c *Ctx) { oldDataRefusalRecognised(c) }},
